@@ -328,3 +328,31 @@ func VerifC15SortLarge() {
 	}
 	verifCover("C15/sortlarge/end")
 }
+
+// VerifC15MixedNumbers: a float against an integer in any of YAML's integer spellings (and two floats): the
+// comparator is antisymmetric and follows the numeric order. Floats are drawn from a finite set of spellings
+// (floating-point arithmetic stays concrete), integers likewise.
+func VerifC15MixedNumbers() {
+	floats := []string{"2.5", "-1.5", "16.0", "1e1", "0.5", "15.5", "-0.0", "31.0"}
+	fvals := []float64{2.5, -1.5, 16, 10, 0.5, 15.5, 0, 31}
+	ints := []string{"0x10", "0X1F", "0o17", "16", "1_0", "-2", "0", "0xf", "3"}
+	ivals := []float64{16, 31, 15, 16, 10, -2, 0, 15, 3}
+	fi := verifChoice("float", len(floats))
+	x := &CandidateNode{Kind: ScalarNode, Tag: "!!float", Value: floats[fi]}
+	xv := fvals[fi]
+	var y *CandidateNode
+	var yv float64
+	if verifChoice("otherIsFloat", 2) == 1 {
+		fj := verifChoice("float2", len(floats))
+		y, yv = &CandidateNode{Kind: ScalarNode, Tag: "!!float", Value: floats[fj]}, fvals[fj]
+	} else {
+		ij := verifChoice("int", len(ints))
+		y, yv = &CandidateNode{Kind: ScalarNode, Tag: "!!int", Value: ints[ij]}, ivals[ij]
+	}
+	cxy := sortableNodeArray(nil).compare(x, y, vRFC3339)
+	cyx := sortableNodeArray(nil).compare(y, x, vRFC3339)
+	label := x.Value + " vs " + y.Value
+	verifAssert((cxy < 0) == (cyx > 0) && (cxy == 0) == (cyx == 0), "C15/antisymmetric float-mixed "+label)
+	verifAssert((cxy < 0) == (xv < yv) && (cxy > 0) == (xv > yv), "C15/agrees-numeric float-mixed "+label)
+	verifCover("C15/mixed/end")
+}
